@@ -312,7 +312,7 @@ def run_width(inst):
             tags.append('complete')
         return tags
 
-    out = runner.explore(name, runner.lra_engine(10000), scenario, claims, confirm=confirm, witness=witness,
+    out = runner.explore(name, runner.lra_engine(10000) if cfg.fam != 'dist' else runner.nra_engine(10000), scenario, claims, confirm=confirm, witness=witness,
                          budget_s=inst[5] if len(inst) > 5 else None,
                          sample_fmt=lambda v: [(r['kind'], r['W'], repr(r['states']), r['idx']) for r in v['res']])
     shims.uninstall()
